@@ -457,7 +457,9 @@ def save_nmeas_estimate(
         f.write(json.dumps(data, indent=2))
 
 
-def load_nmeas_estimate(filename: AnyPath) -> Tuple[float, int, np.ndarray]:
+def load_nmeas_estimate(
+    filename: AnyPath,
+) -> Tuple[float, int, Optional[np.ndarray]]:
     """Load an estimate of the number of measurements from a file.
 
     Args:
@@ -466,13 +468,17 @@ def load_nmeas_estimate(filename: AnyPath) -> Tuple[float, int, np.ndarray]:
     Returns:
         nmeas: number of measurements for epsilon = 1.0
         nterms: number of terms in the hamiltonian
-        frame_meas: frame measurements (number of measurements per group)
+        frame_meas: frame measurements (number of measurements per group),
+            None if the file contains none
     """
 
     with open(filename, "r") as f:
         data = json.load(f)
 
-    frame_meas = convert_dict_to_array(data["frame_meas"])
+    # save_nmeas_estimate only writes "frame_meas" when frame measurements were given
+    frame_meas = (
+        convert_dict_to_array(data["frame_meas"]) if "frame_meas" in data else None
+    )
     K_coeff = data["K"]
     nterms = data["nterms"]
 
